@@ -178,6 +178,14 @@ func init() {
 			}
 		}
 		ts := tourAll(run, lim, 0)
+		// finer chunk sizes against the limit: three-chunk accumulations, exact fits
+		zmc := modelCheck("MC_Size", "MC_Size.cfg", 16)
+		zs := tourAll(run, dumpEdges("MC_Size", "Dump_Size.cfg"), 0)
+		ts.Covered += zs.Covered
+		ts.Edges += zs.Edges
+		ts.Convs += zs.Convs
+		smc.Distinct += zmc.Distinct
+		smc.Generated += zmc.Generated
 		fmt.Printf("C06: DataStream %d states; reader sweep %d runs; %d end-to-end size conversations; session graph with a limit: %d/%d edges replayed\n", mc.Distinct, st.runs, ne, ts.Covered, ts.Edges)
 		run.Finish("model_checking", evid.Coverage{
 			"states": mc.Distinct + smc.Distinct, "transitions": mc.Generated + smc.Generated,
